@@ -86,7 +86,7 @@ def main():
         precise = set(); vague = set(); hard = bool(u.hard); rl = False; degraded = bool(getattr(u, 'degraded', []))
         for f in u.failures:
             if f.get('rlimit'): rl = True; continue
-            if f.get('attr') != 'default' and not f.get('item_structural') and ('postcondition' in f['message'] or f['module'] in ('trace', 'glue', 'remapping_loop')): precise.update(f['tags'])
+            if f.get('attr') != 'default' and not f.get('item_structural') and ('postcondition' in f['message'] or f['module'] in ('trace', 'glue', 'remapping_loop') or (f['module'] == 'layout_parsing_formatting' and f.get('attr') == 'rules')): precise.update(f['tags'])
             else: vague.update(f['tags'])
         T = set(p for p, v in truth.items() if v)
         fa = sorted((precise & set(props)) - T)
